@@ -7,7 +7,7 @@
                                       loop'), and an entered extent queues at most M further directories;
                                       fuel length U * (M + 1) + 2 is never exhausted
      ps_walk_bounded                  records and inodes created: at most length U * M
-     ps_walk_codes                    every failure is one of the raise statements 1..8 (or leaves the fragment) *)
+   The failure codes are classified in ParseTotalInst.v (parse_only_documented_errors). *)
 From Coq Require Import ZArith List Bool Lia ZifyBool.
 From PV.Base Require Import Prim ListX.
 From PV.Gen Require Import GenConst GenFun.
